@@ -11,7 +11,6 @@ Definition shared_inventory : list (str * kind) := [
   ((s "parsing.extractors.archive_extractor.NESTED_ARCHIVE_EXTENSIONS"), KConst);
   ((s "parsing.extractors.archive_extractor.HIDDEN_PATTERNS"), KConst);
   ((s "parsing.extractors.archive_extractor._config"), KConfig);
-  ((s "parsing.extractors.data_types._folder_path_of"), KRaw);
   ((s "parsing.extractors.data_types.RtfImage._CONTENT_TYPES"), KConst);
   ((s "parsing.extractors.epub_extractor._guess_content_type"), (KMemo 256));
   ((s "parsing.extractors.epub_extractor.NS"), KConst);
